@@ -24,7 +24,9 @@ COLNAMES = ['id', 'a', 'id2', 'b']
 SHAPES = ['join', 'in_subquery', 'not_in_subquery', 'scalar_subquery', 'target_subquery', 'union', 'union_all', 'intersect', 'except', 'intersect_all',
           'except_all', 'cte', 'nested', 'join_subselect', 'three', 'three_mixed', 'case_subquery', 'func_subquery', 'single_integration_join',
           'three_keys', 'three_keys_rev', 'three_star', 'in_subquery_join', 'in_subquery_join_rev', 'target_subquery_join', 'exists_subquery',
-          'cte_collide', 'cte_collide_join', 'join_subselect_limit', 'join_subselect_star', 'join_subselect_distinct', 'join_subselect_offset']
+          'cte_collide', 'cte_collide_join', 'join_subselect_limit', 'join_subselect_star', 'join_subselect_distinct', 'join_subselect_offset',
+          'cte_only_in_where_subquery', 'cte_only_in_where_subquery_named_like_table', 'cte_only_in_exists', 'cte_only_in_target_subquery',
+          'cte_only_in_not_in', 'cte_only_in_scalar']
 JOINS = ['JOIN', 'INNER JOIN', 'LEFT JOIN', 'RIGHT JOIN', 'FULL JOIN', 'LEFT OUTER JOIN', 'FULL OUTER JOIN', 'CROSS JOIN', 'implicit']
 ONS = [('equi', 't1.id = t2.id'), ('equi_rconst', 't1.id = t2.id AND t2.b = 1'), ('equi_lconst', 't1.id = t2.id AND t1.a = 1'),
        ('nonequi', 't1.a < t2.b'), ('equi_or', 't1.id = t2.id OR t1.a = t2.b'), ('rev_equi', 't2.id = t1.id'), ('equi2', 't1.id = t2.id AND t1.a = t2.b'),
@@ -42,6 +44,17 @@ WHERES = [('none', ''), ('left', 't1.a = 1'), ('right', 't2.b = 1'), ('both', 't
           ('constfirst_lt', '1 < t2.b'), ('constfirst_ge_left', '1 >= t1.a'), ('constfirst_gt_both', '2 > t1.a AND 1 <= t2.b'), ('right_le', 't2.b <= 1'),
           ('right_like', "t2.y LIKE 'a%'"), ('right_not_in', 't2.b NOT IN (1)'), ('not_right_isnull', 'NOT t2.b IS NULL'), ('right_between', 't2.b BETWEEN 1 AND 2'),
           ('or_same_side', 't2.b = 1 OR t2.b = 2'), ('paren_right', '(t2.b = 1)'), ('arith_right', 't2.b + 1 = 2')]
+# constant written first x every binary operator x the side whose column it is compared with (a pushed-down condition must keep
+# the operand order or mirror the operator; LIKE / NOT LIKE have no mirror image)
+for _op, _c in [('=', '1'), ('<>', '1'), ('<', '1'), ('<=', '1'), ('>', '2'), ('>=', '2'), ('LIKE', "'1%'"), ('NOT LIKE', "'1%'"), ('IN', '1'), ('NOT IN', '1'), ('+', '1'), ('-', '3')]:
+    for _side, _col in (('left', 't1.a'), ('right', 't2.b')):
+        _name = 'constfirst_' + _op.lower().replace(' ', '_').replace('=', 'eq').replace('<', 'lt').replace('>', 'gt').replace('+', 'plus').replace('-', 'minus') + '_' + _side
+        if _op in ('IN', 'NOT IN'):
+            WHERES.append((_name, f'{_c} {_op} ({_col}, 7)'))
+        elif _op in ('+', '-'):
+            WHERES.append((_name, f'{_c} {_op} {_col} = 2'))
+        else:
+            WHERES.append((_name, f'{_c} {_op} {_col}'))
 TARGETS = [('cols', COLS), ('star', '*'), ('count', 'count(*) AS n'), ('expr', 't1.id, t1.a, t2.id AS id2, t2.b, t1.a + t2.b AS k'),
            ('left_only', 't1.id, t1.a'), ('right_only', 't2.id AS id2, t2.b'), ('agg', 'sum(t1.x) AS s, max(t2.y) AS m'), ('distinct', 'DISTINCT t1.a, t2.b'),
            ('distinct_star', 'DISTINCT *'), ('distinct_cols', 'DISTINCT t1.id, t1.a, t2.id AS id2, t2.b')]
@@ -291,6 +304,30 @@ def build(a):
                 body = f'{cte} SELECT t1.id, t1.a, q.id AS id2, q.a AS b FROM {t1} JOIN int2.t2 AS s ON t1.id = s.id JOIN t2 AS q ON q.id = s.id' + (' WHERE ' + where if where else '')
             full = body
             sql = body + tail(['t1.id', 't1.a', 'id2', 'b']) + lim_sql()
+        elif shape.startswith('cte_only_in_'):
+            # a CTE over another integration that is referenced only from a sub-query of a single-table select
+            if a['targets'] or group or wl not in ('none', 'left', 'gt'):
+                return None
+            cname = 't3' if shape.endswith('named_like_table') else 'q'
+            cte = f'WITH {cname} AS (SELECT t2.id, t2.b FROM int2.t2 WHERE t2.b = 1)'
+            names = ['id', 'a']
+            tg = 't1.id, t1.a'
+            if shape == 'cte_only_in_exists':
+                cond = f'EXISTS (SELECT 1 FROM {cname} WHERE {cname}.id = t1.id)'
+            elif shape == 'cte_only_in_target_subquery':
+                tg, names, cond = f't1.id, t1.a, (SELECT max(b) FROM {cname}) AS m', ['id', 'a', 'm'], ''
+            elif shape == 'cte_only_in_not_in':
+                cond = f't1.id NOT IN (SELECT id FROM {cname} WHERE id IS NOT NULL)'
+            elif shape == 'cte_only_in_scalar':
+                cond = f't1.id = (SELECT min(id) FROM {cname})'
+            else:
+                cond = f't1.id IN (SELECT id FROM {cname})'
+            conds = [c for c in (cond, where) if c]
+            body = f'{cte} SELECT {tg} FROM {t1}' + (' WHERE ' + ' AND '.join(conds) if conds else '')
+            if any(p > 1 for p, d in ospec):
+                return None
+            full = body
+            sql = body + tail(['t1.id', 't1.a', 'm']) + lim_sql()
         elif shape in ('join_subselect_limit', 'join_subselect_star', 'join_subselect_distinct', 'join_subselect_offset'):
             # a derived table with its own ORDER BY / LIMIT / DISTINCT, filtered again from outside
             if a['targets'] or group or wl not in ('none', 'left', 'gt', 'right', 'neq', 'right_le', 'right_between'):
